@@ -376,6 +376,11 @@ def handleQ (ws : List String) : Option String :=
     | .all => some "all"
     | .some rs => some (outList cd rs)
     | .unsupported => some "unsupported"
+  | "realroots" :: _lead :: rest => do
+    -- expected answer computed from the KNOWN real roots (validation of the libm/iterative branches)
+    let (rs, _) ← takeCounted cd rest
+    let sorted := sortBy (· < ·) rs
+    some (outList cd sorted ++ " | " ++ outList cd sorted)
   | "bez" :: "poly" :: rest => do
     let (xs, ys, _) ← takeCurve cd rest
     some (outList cd (bezPoly xs) ++ " " ++ outList cd (bezPoly ys))
